@@ -18,14 +18,16 @@ BOUNDS = {
               dict(N=4, K=2, depths=(1, 2, 3, 4), modes=("rp", "rd", "rk"), grouped=(False,)),
               dict(N=3, K=3, depths=(2, 3), modes=("rp", "rd"), grouped=(False,)),
               dict(N=4, K=3, depths=(1, 2), modes=("r0", "rp"), grouped=(False,), kinds=hitx.KINDS_LBL),
-              dict(N=4, K=2, depths=(1, 2), modes=("r0", "rp", "rk"), grouped=hitx.HOWS)],
+              dict(N=4, K=2, depths=(1, 2), modes=("r0", "rp", "rk"), grouped=hitx.HOWS),
+              dict(N=4, K=3, depths=(1, 2, 3), modes=("rs",), grouped=(False,), kinds=hitx.KINDS_RS)],
         streams="quick"),
     "thorough": dict(
         full=[dict(N=4, K=3, depths=(1, 2, 3), modes=("r0", "rp"), grouped=(False,), hi=True, kinds=hitx.KINDS_HI),
               dict(N=5, K=2, depths=(1, 2, 3, 4), modes=hitx.MODES, grouped=(False, True)),
               dict(N=4, K=3, depths=(2, 3), modes=("rp", "rd", "rk"), grouped=(False,)),
               dict(N=5, K=3, depths=(1, 2), modes=("r0", "rp"), grouped=(False,), kinds=hitx.KINDS_LBL),
-              dict(N=4, K=3, depths=(1, 2), modes=("r0", "rp", "rk"), grouped=hitx.HOWS)],
+              dict(N=4, K=3, depths=(1, 2), modes=("r0", "rp", "rk"), grouped=hitx.HOWS),
+              dict(N=4, K=3, depths=(1, 2, 3), modes=("rs",), grouped=(False,), kinds=hitx.KINDS_RS)],
         streams="thorough"),
 }
 
